@@ -9,6 +9,7 @@ import (
 	"io"
 
 	"github.com/dtn7/cboring"
+	"github.com/hashicorp/go-multierror"
 )
 
 // ProphetBlock contains metadata used by the "PRoPHET" routing algorithm.
@@ -40,8 +41,14 @@ func (pBlock *ProphetBlock) BlockTypeName() string {
 	return "Prophet Routing Block"
 }
 
-func (pBlock ProphetBlock) CheckValid() error {
-	return nil
+func (pBlock ProphetBlock) CheckValid() (errs error) {
+	// MarshalCbor refuses invalid endpoint IDs, so they must not be accepted either.
+	for peerID := range pBlock {
+		if err := peerID.CheckValid(); err != nil {
+			errs = multierror.Append(errs, err)
+		}
+	}
+	return
 }
 
 func (pBlock *ProphetBlock) MarshalCbor(w io.Writer) error {
